@@ -135,3 +135,60 @@ Definition c05_hist_violations (cases : list hist_case) : list Z :=
   bad_indices (fun c => negb (hist_holds c)) cases.
 Definition c05_hist_known (cases : list hist_case) : list Z :=
   bad_indices (stall_only 0) cases.
+
+(* ------------------------------------------------------------------ Draw *)
+
+(* Draw into a child window of the terminal's size on a host screen filled with a sentinel:
+   what the host screen holds inside the window afterwards, whether anything changed
+   outside it, and the cursor Draw asked for (relative to the window) *)
+Definition dcell : Type := text * Z * style.
+Definition sentinel : dcell := ([35], 1, style0).
+Definition draw_obs : Type := bool * (bool * Z * Z) * list (list dcell).
+Definition draw_case : Type := hist_case * draw_obs.
+
+Definition zseq (n : Z) : list Z := map Z.of_nat (seq 0 (Z.to_nat n)).
+
+Fixpoint find_draw (l : list (Z * Z * tcell)) (c r : Z) : option tcell :=
+  match l with
+  | [] => None
+  | (c', r', x) :: rest => if (c =? c') && (r =? r') then Some x else find_draw rest c r
+  end.
+
+(* the window after Draw's SetCell calls (an empty grapheme is drawn as a space) *)
+Definition draw_screen (t : term) : list (list dcell) :=
+  let d := draw t in
+  map (fun r => map (fun c => match find_draw d c r with
+                              | Some x => (if is_nil (c_g x) then [32] else c_g x, c_w x, c_st x)
+                              | None => sentinel
+                              end) (zseq (width t))) (zseq (height t)).
+
+Fixpoint final_term (t : term) (l : hist_case) : option term :=
+  match l with
+  | [] => Some t
+  | (s, _) :: rest => match hstep_run t s with TOk t' => final_term t' rest | _ => None end
+  end.
+
+Definition dcell_eqb (a b : dcell) : bool :=
+  let '(g, w, s) := a in let '(g', w', s') := b in zlist_eqb g g' && (w =? w') && style_eqb s s'.
+
+Definition draw_model_ok (c : draw_case) : bool :=
+  let '(h, (outside, (vis, col, row), cells)) := c in
+  hist_model_ok h &&
+  match final_term term_new h with
+  | Some t => list_eqb (list_eqb dcell_eqb) (draw_screen t) cells
+              && Bool.eqb vis (m_tcem (t_md t))
+              && (negb vis || ((col =? t_col t) && (row =? t_row t)))
+  | None => false
+  end.
+
+(* C05 on one observed Draw: nothing outside the window changed, the cursor is inside *)
+Definition draw_holds (c : draw_case) : bool :=
+  let '(h, (outside, (vis, col, row), cells)) := c in
+  let rows := zlen cells in
+  let cols := match cells with [] => 0 | r :: _ => zlen r end in
+  outside && (negb vis || ((0 <=? col) && (col <? cols) && (0 <=? row) && (row <? rows))).
+
+Definition c05_draw_mismatches (cases : list draw_case) : list Z :=
+  bad_indices (fun c => negb (draw_model_ok c)) cases.
+Definition c05_draw_violations (cases : list draw_case) : list Z :=
+  bad_indices (fun c => negb (draw_holds c)) cases.
